@@ -10,6 +10,7 @@ package eval
 import (
 	"encoding/json"
 	"fmt"
+	"math/rand"
 	"os"
 	"reflect"
 	"sort"
@@ -125,6 +126,20 @@ func vfMapOrder(on bool)                     {}
 func vfNarrow(on bool)                       {}
 func vfNarrowViolations() int                { return 0 }
 func vfPlaceholder(tok string) (Value, bool) { return nil, false }
+
+// vfScriptSource makes (*rand.Rand).Intn return the scripted draws rand#1, rand#2, …
+// (Intn(n) takes the top 31 bits of Int63 modulo n; small draws pass the rejection loop).
+type vfScriptSource struct{ k int }
+
+func (s *vfScriptSource) Int63() int64 {
+	s.k++
+	v, _ := strconv.ParseInt(vfVals["rand#"+strconv.Itoa(s.k)], 10, 64)
+	return v << 32
+}
+func (s *vfScriptSource) Seed(int64) {}
+
+// vfRand returns a generator whose Intn results are arbitrary (the executor) or scripted (replay).
+func vfRand() *rand.Rand { return rand.New(&vfScriptSource{}) }
 
 // vfOpaqueDate is an arbitrary text; natively a concrete one that matches layout.
 func vfOpaqueDate(name, layout string) string {
